@@ -4061,6 +4061,28 @@ def union_degree(r: R, chk, qual: str = "heavy.ImmutableKnotVector.__or__", rule
                detail="" if ok else f"{qual}: `{seg(st, 50)}` stores `{seg(ex, 50)}`, which does not involve the degree of either operand: for different degrees the multiplicities of the lower-degree vector are not raised by the difference, the union is not a space that holds its splines — A + B raises (shapes do not match) and A / B is silently wrong for polynomial curves of different degrees when the lower-degree curve has an interior knot",
                func=qual, construct="union multiplicity ignores the degrees")
     chk.floor(rule, f"stores into the table of multiplicities in {qual}", n, 1)
+    # the raise by the degree difference is a statement about a knot OF THAT OPERAND: a knot the operand does not have keeps
+    # multiplicity 0 (no constraint), not 0 + raised
+    k = 0
+    for b in ast.walk(fn):
+        if not (isinstance(b, ast.BinOp) and isinstance(b.op, ast.Add)):
+            continue
+        call = next((x for x in (b.left, b.right) if isinstance(x, ast.Call) and isinstance(x.func, ast.Attribute) and x.func.attr in ("mult", "count") and len(x.args) == 1 and isinstance(x.args[0], ast.Name) and isinstance(x.func.value, ast.Name)), None)
+        if call is None:
+            continue
+        vec, knot = call.func.value.id, call.args[0].id
+        loops = [l for l in ast.walk(fn) if isinstance(l, (ast.For, ast.comprehension)) and knot in _target_names(l.target) and (isinstance(l, ast.comprehension) or any(y is b for s in l.body for y in ast.walk(s)))]
+        if not loops:
+            continue
+        k += 1
+        it = loops[-1].iter
+        own = any(isinstance(x, ast.Name) and x.id == vec for x in ast.walk(it))
+        guarded = any(isinstance(g, ast.If) and any(y is b for s in g.body for y in ast.walk(s)) and vec in seg(g.test) and knot in seg(g.test) for g in ast.walk(fn))
+        ok = own or guarded
+        chk.ob(rule, f"{qual}: `{seg(b, 40)}` is evaluated at the knots of `{vec}` itself", ok, loc=f"{fi.module}.py:{b.lineno}",
+               detail="" if ok else f"{qual}: `{seg(b, 50)}` is evaluated for every `{knot}` of `{seg(it, 30)}`, not only for the knots of `{vec}`: a knot that `{vec}` does not have gets 0 + the degree difference instead of no constraint, so with degrees that differ by 2 or more the union carries surplus copies of the interior knots of the higher-degree operand — U | V is no longer the coarsest common refinement (KnotVector([0,0,0,0,1/2,1,1,1,1]) | KnotVector([0,0,1,1]) doubles the knot 1/2)",
+               func=qual, construct="degree difference added at knots the operand does not have")
+    chk.note(f"{rule}: {k} raised multiplicities `X.mult(knot) + d` examined in {qual}")
     return n
 
 
@@ -4103,14 +4125,14 @@ def inplace_mix(r: R, chk, quals: List[str], rule="INPLACE-MIX", floor: int = 0)
 
 # ---------------------------------------------------------------------------------------------------------
 # WALK-ONCE: a sequence argument is walked by one consumer only, unless it has been materialised first
-def walk_once(r: R, chk, quals: List[str], rule="WALK-ONCE", floor: int = 1):
+def walk_once(r: R, chk, quals: List[str], rule="WALK-ONCE", floor: int = 1, only=None):
     """`list(nodes)` followed by `self.valid(nodes)`: a one-pass iterable (generator, map, iter) is exhausted by the first walk and
     the second sees nothing — the validity test passes vacuously and nodes outside the interval are inserted.  Until the parameter
     has been rebound to `tuple(p)` / `list(p)`, at most one call / loop may consume it."""
     n = 0
     for q in quals:
         fi = r.prog.func(q)
-        for p in [p_ for p_ in fi.params if p_ not in ("self", "cls")]:
+        for p in [p_ for p_ in fi.params if p_ not in ("self", "cls") and (only is None or p_ in only)]:
             order = []
             for st in ast.walk(fi.node):
                 if isinstance(st, ast.stmt):
@@ -4119,7 +4141,9 @@ def walk_once(r: R, chk, quals: List[str], rule="WALK-ONCE", floor: int = 1):
             rebound_at = None
             for st in fi.node.body:
                 for x in ast.walk(st):
-                    if isinstance(x, ast.Assign) and any(isinstance(t, ast.Name) and t.id == p for t in x.targets) and isinstance(x.value, ast.Call) and seg(x.value.func) in ("tuple", "list") and x.value.args and isinstance(x.value.args[0], ast.Name) and x.value.args[0].id == p and rebound_at is None:
+                    if isinstance(x, ast.Assign) and any(isinstance(t, ast.Name) and t.id == p for t in x.targets) and isinstance(x.value, ast.Call) and seg(x.value.func) in ("tuple", "list", "sorted") and x.value.args and rebound_at is None \
+                            and sum(1 for y in ast.walk(x.value) if isinstance(y, ast.Name) and y.id == p) == 1:
+                        # `p = tuple(p)`, `p = tuple(set(p) - set(limits))`: the one walk whose result is kept
                         rebound_at = x
                 if rebound_at is not None:
                     break
@@ -4753,3 +4777,425 @@ def _request_asserts(fn, params):
                     out.append(a)
                     break
     return out
+
+
+# ---------------------------------------------------------------------------------------------------------
+# EXACT-PATH: an operation that is always exact never takes the refitting path for a curve that has control points
+def exact_path(r: R, chk, quals: List[str], rule="EXACT-PATH", floor: int = 1):
+    """knot insertion and degree elevation have an exact matrix; `self.knotvector = U` / `self.update(U)` refit by least squares and
+    ACCEPT OR REFUSE with an absolute tolerance (and re-infer the degree from the new vector).  In these operations the refitting
+    path is the shortcut for a curve without control points only: it is reached under `self.ctrlpoints is None` or not at all."""
+    from .c08 import path_facts
+
+    n = 0
+    for q in quals:
+        ctx = r.root(q)
+        for cr in ctx.calls:
+            refit = (cr.kind == "setter" and any(f.qual.endswith("knotvector.setter") for f in cr.callees)) or any(f.qual in ("curves.BaseCurve.update", "curves.Curve.fit_curve") for f in cr.callees)
+            if not refit:
+                continue
+            n += 1
+            facts = path_facts(ctx, cr.cfgnode)
+            ok = ("self.ctrlpoints is None", True) in facts
+            chk.ob(rule, f"{q}: `{seg(ctx.cfg.nodes[cr.cfgnode].ast, 40)}` (the refitting path) only where `self.ctrlpoints is None`", ok, loc=r.loc(ctx, cr.node),
+                   detail="" if ok else f"{q}: `{seg(ctx.cfg.nodes[cr.cfgnode].ast, 50)}` hands the new knot vector to the least-squares update although the path has not established `self.ctrlpoints is None` (tests on the way: {', '.join(sorted(('' if p_ else 'not ') + t_ for t_, p_ in facts)) or 'none that holds on every path'}): a curve WITH control points is refitted and accepted or refused by the absolute tolerance instead of being transformed by the exact matrix — a request that must be refused (both end knots) is accepted with a higher degree whenever the curve happens to be representable, and a valid insertion into float data of large magnitude is refused",
+                   func=q, construct="refit instead of the exact matrix")
+    chk.floor(rule, "refitting calls in the exact refinement operations", n, floor)
+    return n
+
+
+# ---------------------------------------------------------------------------------------------------------
+# WEIGHTS-EVERY-DEGREE: what an evaluator keeps as weights is decided by the weights alone, not by the sub-degree
+def weights_every_degree(r: R, chk, qual: str, rule="WEIGHTS-EVERY-DEGREE"):
+    """w_i N_ij / sum_k w_k N_kj is the definition for EVERY j <= p.  The evaluator of f[i, j] keeps the weights of f; a value that is
+    chosen by a test on anything else (the sub-degree, the degree of the vector) drops the weights for some j."""
+    fi = r.prog.func(qual)
+    fn = fi.node
+    pos = _block_defs(fn)
+    n = 0
+
+    def enclosing_tests(node):
+        out = []
+        for x in ast.walk(fn):
+            if isinstance(x, (ast.If, ast.While)) and any(y is node for s in x.body + x.orelse for y in ast.walk(s)):
+                out.append(x.test)
+        return out
+
+    for a in ast.walk(fn):
+        if not (isinstance(a, ast.Assign) and any(isinstance(t, ast.Attribute) and "weights" in t.attr for t in a.targets)):
+            continue
+        n += 1
+        val = resolve_reaching(fn, a.value, a, pos=pos)
+        tests = [x.test for x in ast.walk(val) if isinstance(x, ast.IfExp) and not (isinstance(x.test, ast.Name) and x.test.id == "__path__")] + enclosing_tests(a)
+        foreign = [t for t in tests if "weights" not in seg(t)]
+        reads = "weights" in seg(val)
+        ok = not foreign and reads
+        chk.ob(rule, f"{qual}: `{seg(a, 50)}` keeps the weights of the function for every sub-degree", ok, loc=f"{fi.module}.py:{a.lineno}",
+               detail="" if ok else (f"{qual}: `{seg(a, 70)}` chooses what is kept as weights by the test `{seg(foreign[0], 40)}`, which is not a test of the weights: for the sub-degrees where it fails the evaluator works without weights and f[i, j] returns the polynomial N_ij instead of w_i N_ij / sum_k w_k N_kj" if foreign else f"{qual}: `{seg(a, 70)}` does not read the weights of the function"),
+               func=qual, construct="weights kept for some sub-degrees only")
+    chk.floor(rule, f"stores of the evaluator's weights in {qual}", n, 1)
+    return n
+
+
+# ---------------------------------------------------------------------------------------------------------
+# ERROR-NONNEG: the error a fit returns is non-negative by construction
+def _nonneg(e) -> bool:
+    if isinstance(e, ast.Constant):
+        return isinstance(e.value, (int, float)) and not isinstance(e.value, bool) and e.value >= 0
+    if isinstance(e, ast.Call):
+        f = seg(e.func)
+        if f in ("abs", "np.abs", "np.absolute", "np.fabs", "np.linalg.norm", "norm", "np.square"):
+            return True
+        if f in ("np.max", "np.amax", "max", "np.sum", "sum", "np.mean", "np.min", "min", "float", "np.sqrt") and e.args:
+            return all(_nonneg(a) for a in e.args)
+        if isinstance(e.func, ast.Attribute) and e.func.attr in ("max", "sum", "min", "mean") and not e.args:
+            return _nonneg(e.func.value)
+        return False
+    if isinstance(e, ast.BinOp):
+        if isinstance(e.op, (ast.Add, ast.Mult, ast.Div)):
+            return _nonneg(e.left) and _nonneg(e.right)
+        if isinstance(e.op, ast.Pow) and isinstance(e.right, ast.Constant) and isinstance(e.right.value, int) and e.right.value % 2 == 0:
+            return True
+        return False
+    if isinstance(e, ast.IfExp):
+        return _nonneg(e.body) and _nonneg(e.orelse)
+    return False
+
+
+def error_nonneg(r: R, chk, qual: str, rule="ERROR-NONNEG", floor: int = 2):
+    """P^T E P is non-negative in exact arithmetic (E is a Gram residual), and a rounding residue of either sign in floats.  What the
+    fit returns is compared with the tolerance and reported as a squared distance: it is an absolute value (or a maximum / a sum of
+    absolute values) on every path — `np.max(M)` of the signed entries returns -2e-17 for a curve inside the space."""
+    fi = r.prog.func(qual)
+    fn = fi.node
+    pos = _block_defs(fn)
+    n = 0
+    for ret in ast.walk(fn):
+        if not (isinstance(ret, ast.Return) and ret.value is not None and not (isinstance(ret.value, ast.Constant) and ret.value.value is None)):
+            continue
+        n += 1
+        e = resolve_reaching(fn, ret.value, ret, pos=pos)
+        ok = _nonneg(e)
+        chk.ob(rule, f"{qual}: `{seg(ret, 30)}` returns an absolute value", ok, loc=f"{fi.module}.py:{ret.lineno}",
+               detail="" if ok else f"{qual}: the value of `{seg(ret, 30)}` is `{seg(e, 90)}`: not an absolute value (or a maximum / sum of absolute values) on this path — the entries of P^T E P carry the sign of their rounding residue, so for a curve that lies in the target space with float knots the returned 'squared error' is negative (-1.9e-17): the returned error is not non-negative",
+               func=qual, construct="signed error returned")
+    chk.floor(rule, f"returns of an error in {qual}", n, floor)
+    return n
+
+
+# ---------------------------------------------------------------------------------------------------------
+# INTERP-COUNT: the knots are interpolation nodes of a refit only where the new vector has degree >= 1
+def interp_count(r: R, chk, module: str = "curves", rule="INTERP-COUNT", floor: int = 2):
+    """A knot vector of degree 0 has npts + 1 distinct knots: handed to the constrained least squares as interpolation nodes they
+    are more than the control points, and func2func raises NotImplementedError.  Every call that passes `U.knots` as nodes of
+    update / fit_curve does so under a test of the degree (`knots if degree != 0 else None`)."""
+    n = 0
+    for q, fi in sorted(r.prog.funcs.items()):
+        if fi.module != module:
+            continue
+        fn = fi.node
+        pos = None
+        for c in ast.walk(fn):
+            if not (isinstance(c, ast.Call) and isinstance(c.func, ast.Attribute) and c.func.attr in ("update", "fit_curve")):
+                continue
+            arg = next((k.value for k in c.keywords if k.arg == "nodes"), None)
+            if arg is None and c.func.attr == "update" and len(c.args) >= 3:
+                arg = c.args[2]
+            if arg is None and c.func.attr == "fit_curve" and len(c.args) >= 2:
+                arg = c.args[1]
+            if arg is None:
+                continue
+            pos = pos or _block_defs(fn)
+            st = _stmt_map(fn).get(id(c))
+            e = resolve_reaching(fn, arg, st, params=tuple(fi.params), pos=pos)
+            knots = [x for x in ast.walk(e) if isinstance(x, ast.Attribute) and x.attr == "knots"]
+            if not knots:
+                continue
+            n += 1
+            guarded = all(any(isinstance(i, ast.IfExp) and "degree" in seg(i.test) and any(y is k for y in ast.walk(i)) for i in ast.walk(e)) for k in knots)
+            if not guarded:
+                # statement form: the call (or the assignment of the nodes) sits under `if ... degree ...`
+                for x in ast.walk(fn):
+                    if isinstance(x, ast.If) and "degree" in seg(x.test) and any(y is c for s in x.body + x.orelse for y in ast.walk(s)):
+                        guarded = True
+            chk.ob(rule, f"{q}: `{seg(c, 40)}` passes the knots as nodes under a test of the degree", guarded, loc=f"{fi.module}.py:{c.lineno}",
+                   detail="" if guarded else f"{q}: `{seg(c, 50)}` passes `{seg(knots[0], 30)}` as interpolation nodes whatever the degree: a vector of degree 0 has one knot more than control points, the constrained fit raises NotImplementedError — reached from A == B (both operands are refined to the common vector through this call) for piecewise constant curves on different knot vectors, where == and != raise instead of answering",
+                   func=q, construct="knots as interpolation nodes without the degree test")
+    chk.floor(rule, "refits that interpolate at the knots", n, floor)
+    return n
+
+
+# ---------------------------------------------------------------------------------------------------------
+# SAMPLE-COUNT: the random weights are drawn with the requested count, not cut out of an array of fixed length
+def sample_count(r: R, chk, qual: str = "knotspace.GeneratorKnotVector.random", rule="SAMPLE-COUNT"):
+    """random(p, n) = weight(p, w) with len(w) = n - p spans, for EVERY n > p.  The sample that becomes w is made by a call that is
+    given the count (`randint(a, b, n - p)`, `[f() for _ in range(n - p)]`); a slice `X[: n - p]` has n - p elements only while
+    the array X is long enough — cut out of an array of fixed length the count is silently capped."""
+    fi = r.prog.func(qual)
+    fn = fi.node
+    pos = _block_defs(fn)
+    n = 0
+    for c in ast.walk(fn):
+        if not (isinstance(c, ast.Call) and seg(c.func).endswith("weight") and len(c.args) >= 2):
+            continue
+        st = _stmt_map(fn).get(id(c))
+        e = resolve_reaching(fn, c.args[1], st, params=tuple(fi.params), pos=pos)
+        n += 1
+        slices = [x for x in ast.walk(e) if isinstance(x, ast.Subscript) and isinstance(x.slice, ast.Slice)]
+        capped = []
+        for sl in slices:
+            base = sl.value
+            # the array that is sliced has a length fixed by constants only (permutation(999), arange(1000), a literal list)
+            names = [y for y in ast.walk(base) if isinstance(y, ast.Name) and y.id in fi.params]
+            if not names:
+                capped.append(sl)
+        sized = [x for x in ast.walk(e) if isinstance(x, ast.Call) and any(isinstance(y, ast.BinOp) and isinstance(y.op, ast.Sub) and {z.id for z in ast.walk(y) if isinstance(z, ast.Name)} >= {"npts", "degree"} for a in list(x.args) + [k.value for k in x.keywords] for y in ast.walk(a))]
+        ok = not capped and bool(sized)
+        chk.ob(rule, f"{qual}: the weights of `{seg(c, 40)}` are drawn with the count npts - degree", ok, loc=f"{fi.module}.py:{c.lineno}",
+               detail="" if ok else (f"{qual}: the weights handed to `{seg(c, 40)}` are the slice `{seg(capped[0], 50)}` of an array whose length does not depend on the request: for npts - degree beyond that length the slice is shorter than asked and random(p, n) silently returns a vector with fewer control points than requested" if capped else f"{qual}: no call on the way to the weights of `{seg(c, 40)}` is given the count npts - degree"),
+               func=qual, construct="sample count capped by a fixed array")
+    chk.floor(rule, f"calls of weight(...) in {qual}", n, 1)
+    return n
+
+
+# ---------------------------------------------------------------------------------------------------------
+# TOL-AGREE: the per-piece and the whole-curve selection of the best pairs use one tolerance
+def tol_agree(r: R, chk, module: str = "advanced", callee: str = "pairs_min_distance", rule="TOL-AGREE"):
+    """`pairs_min_distance(pairs, A, B, tol)` keeps the pairs whose residual is within tol of the best one.  It is applied to the
+    candidates of every pair of pieces and again to their union: the clamped candidate of a NEIGHBOURING piece (a Newton iterate
+    stopped at the piece's end) survives its own piece pair, where it is alone, and is dropped at the curve level because the true
+    crossing is better by more than tol.  The second selection therefore may not be more tolerant than the first: every call
+    site gives the same tolerance (the default, or one expression)."""
+    sites = []
+    for q, fi in sorted(r.prog.funcs.items()):
+        if fi.module != module:
+            continue
+        for c in ast.walk(fi.node):
+            if isinstance(c, ast.Call) and seg(c.func).endswith(callee):
+                tol = next((k.value for k in c.keywords if k.arg == "tolerance"), c.args[3] if len(c.args) > 3 else None)
+                sites.append((q, fi, c, "default" if tol is None else seg(tol)))
+    # the default of the callee stands for a site that gives none; constants are compared by value (1e-9 == 0.000000001)
+    dflt = None
+    for q, fi in r.prog.funcs.items():
+        if fi.module == module and q.endswith("." + callee):
+            a = fi.node.args
+            names = [x.arg for x in a.args]
+            if "tolerance" in names and len(a.defaults) >= len(names) - names.index("tolerance"):
+                dflt = seg(a.defaults[names.index("tolerance") - (len(names) - len(a.defaults))])
+
+    def canon(t):
+        t = dflt if (t == "default" and dflt is not None) else t
+        try:
+            return repr(float(ast.literal_eval(t)))
+        except Exception:
+            return t
+
+    sites = [(q, fi, c, canon(t)) for q, fi, c, t in sites]
+    vals = sorted({s[3] for s in sites})
+    for q, fi, c, t in sites:
+        ok = len(vals) <= 1
+        chk.ob(rule, f"{q}: `{seg(c, 40)}` uses the common tolerance ({t})", ok, loc=f"{fi.module}.py:{c.lineno}",
+               detail="" if ok else f"{q}: `{seg(c, 60)}` selects with tolerance {t} while the other call sites use {', '.join(v for v in vals if v != t)}: with a more tolerant selection on the union than on the pieces, the clamped candidate of the neighbouring piece (residual below the bound, parameters off by up to 1e-7) is kept next to the true crossing — one crossing just past a polyline vertex comes back as two pairs, one of them with wrong parameters",
+               func=q, construct="selection tolerances differ")
+    chk.floor(rule, f"call sites of {callee}", len(sites), 2)
+    return len(sites)
+
+
+# ---------------------------------------------------------------------------------------------------------
+# ERROR-COVERS: every quantity the fit replaces by its projection is measured by the error that is returned
+def error_covers(r: R, chk, qual: str = "curves.Curve.fit_curve", rule="ERROR-COVERS", floor: int = 2):
+    """`Y = T @ X` replaces X by its least-squares image; `X^T E X` is the squared distance between the two.  In the branch that
+    fits homogeneous coordinates both the weighted points AND the weights are replaced: the error handed to the tolerance gate
+    contains the quadratic form of E for each of them — with the weights left out, a rational curve whose weighted points are
+    reducible but whose weights are not is 'reduced' without error."""
+    fi = r.prog.func(qual)
+    fn = fi.node
+    pos = _block_defs(fn)
+    keep = ("materror", "transmat")
+
+    def text(e, at):
+        return seg(resolve_reaching(fn, e, at, keep=keep, params=tuple(fi.params), pos=pos), 400)
+
+    def products(e):
+        """(matrix name, operand) of np.dot(M, X) / M @ X"""
+        out = []
+        for c in ast.walk(e):
+            if isinstance(c, ast.Call) and seg(c.func) in ("np.dot", "np.matmul", "np.tensordot") and len(c.args) >= 2 and isinstance(c.args[0], ast.Name):
+                out.append((c.args[0].id, c.args[1]))
+            if isinstance(c, ast.BinOp) and isinstance(c.op, ast.MatMult) and isinstance(c.left, ast.Name):
+                out.append((c.left.id, c.right))
+        return out
+
+    n = 0
+    for ret in ast.walk(fn):
+        if not (isinstance(ret, ast.Return) and ret.value is not None):
+            continue
+        stmts, idx, up = pos[id(ret)]
+        block = stmts[:idx]
+        fitted = []
+        for st in block:
+            if isinstance(st, ast.Assign):
+                for m_, x in products(st.value):
+                    if m_ == "transmat":
+                        fitted.append((st, x, text(x, st)))
+        if not fitted:
+            continue
+        err = resolve_reaching(fn, ret.value, ret, keep=keep, params=tuple(fi.params), pos=pos)
+        measured = {seg(x, 400) for m_, x in products(err) if m_ == "materror"}
+        for st, x, tx in fitted:
+            n += 1
+            ok = tx in measured
+            chk.ob(rule, f"{qual}: the error returned at line {ret.lineno} measures `{seg(x, 30)}` (fitted at line {st.lineno})", ok, loc=f"{fi.module}.py:{st.lineno}",
+                   detail="" if ok else f"{qual}: `{seg(st, 50)}` replaces `{seg(x, 30)}` by its least-squares image, but the error returned at line {ret.lineno} (`{seg(err, 80)}`) contains no quadratic form `materror` of it: what the fit changes in `{seg(x, 30)}` is not counted, so a reduction that changes the curve through that quantity alone (a rational curve whose weighted points are degree-reducible while its weights are not) is accepted with error 0 — degree_decrease / knot_remove / clean change the function silently",
+                   func=qual, construct=f"error ignores the fitted {seg(x, 20)}")
+    chk.floor(rule, f"fitted quantities in {qual}", n, floor)
+    return n
+
+
+# ---------------------------------------------------------------------------------------------------------
+# INT-RATIO: no true division of one control value (weight / control point) by another
+def _value_leaves(fn, e, at, pos, depth=6):
+    """the attributes an expression is read from, through subscripts and local copies; None when anything else takes part"""
+    out = set()
+
+    def go(x, at_, d):
+        if isinstance(x, ast.Subscript):
+            return go(x.value, at_, d)
+        if isinstance(x, ast.Attribute):
+            out.add(x.attr)
+            return True
+        if isinstance(x, ast.Call) and seg(x.func) in ("tuple", "list") and len(x.args) == 1:
+            return go(x.args[0], at_, d)
+        if isinstance(x, ast.IfExp):
+            return go(x.body, at_, d) and go(x.orelse, at_, d)
+        if isinstance(x, (ast.Tuple, ast.List)):
+            return all(isinstance(y, ast.Constant) and isinstance(y.value, int) for y in x.elts) and bool(x.elts)
+        if isinstance(x, ast.BinOp) and isinstance(x.op, ast.Mult) and isinstance(x.left, (ast.Tuple, ast.List)):
+            return go(x.left, at_, d)  # (1,) * n: stand-in integer weights
+        if isinstance(x, ast.Name) and d > 0:
+            def value_of(st_):
+                """the expression assigned to x by `x = e` or element-wise by `x, y = e1, e2`"""
+                if not (isinstance(st_, ast.Assign) and len(st_.targets) == 1):
+                    return None
+                tg = st_.targets[0]
+                if isinstance(tg, ast.Name) and tg.id == x.id:
+                    return st_.value
+                if isinstance(tg, ast.Tuple) and isinstance(st_.value, ast.Tuple) and len(tg.elts) == len(st_.value.elts):
+                    for t_, v_ in zip(tg.elts, st_.value.elts):
+                        if isinstance(t_, ast.Name) and t_.id == x.id:
+                            return v_
+                return None
+
+            st = reaching_assign(fn, at_, x.id, pos, compound=True)
+            if isinstance(st, ast.If):
+                oks = []
+                for s_ in ast.walk(st):
+                    v_ = value_of(s_)
+                    if v_ is not None:
+                        oks.append(go(v_, s_, d - 1))
+                prev = reaching_assign(fn, st, x.id, pos, compound=True)
+                depth_guard = 0
+                while isinstance(prev, ast.If) and depth_guard < 4:
+                    for s_ in ast.walk(prev):
+                        v_ = value_of(s_)
+                        if v_ is not None:
+                            oks.append(go(v_, s_, d - 1))
+                    prev = reaching_assign(fn, prev, x.id, pos, compound=True)
+                    depth_guard += 1
+                v_ = value_of(prev)
+                if v_ is not None:
+                    oks.append(go(v_, prev, d - 1))
+                return bool(oks) and all(oks)
+            v_ = value_of(st)
+            if v_ is not None:
+                return go(v_, st, d - 1)
+        return False
+
+    return out if go(e, at, depth) else None
+
+
+def int_ratio(r: R, chk, module: str = "curves", rule="INT-RATIO"):
+    """Weights and control points may be Python ints (the property promises exact results for int data on Fraction knots).  A true
+    division whose numerator AND denominator are both read straight from weights / control points — no knot, no matrix made from
+    knots, no Fraction(...) / invert(...) in between — is int / int for such data: a float.  (point / weight after a product with
+    a matrix of Fractions is not of this kind: the product made it a Fraction.)"""
+    n = hits = 0
+    for q, fi in sorted(r.prog.funcs.items()):
+        if fi.module != module:
+            continue
+        fn = fi.node
+        pos = sm = None
+        for b in ast.walk(fn):
+            if not (isinstance(b, ast.BinOp) and isinstance(b.op, ast.Div)):
+                continue
+            pos = pos or _block_defs(fn)
+            sm = sm or _stmt_map(fn)
+            st = sm.get(id(b))
+            n += 1
+            ll, rl = _value_leaves(fn, b.left, st, pos), _value_leaves(fn, b.right, st, pos)
+            bad = bool(ll) and bool(rl) and (ll | rl) <= {"weights", "ctrlpoints"}
+            hits += bad
+            chk.ob(rule, f"{q}: `{seg(b, 40)}` is not a quotient of two control values", not bad, loc=f"{fi.module}.py:{b.lineno}",
+                   detail="" if not bad else f"{q}: `{seg(b, 50)}` divides a value read from {sorted(ll)} by a value read from {sorted(rl)}: with int weights / control points on Fraction knots (data for which exact results are promised) this is int / int — a float, which then spreads into every weight, control point and evaluation of the result; exact code multiplies (or uses invert / Fraction) instead",
+                   func=q, construct="int / int of control values")
+    # positive control: the predicate recognises the pattern on a sample (the unchanged tree has no instance)
+    sample = ast.parse("def f(a, b):\n    w0 = a.weights\n    w1 = b.weights\n    if w1 is None:\n        w1 = (1,) * 3\n    k = w0[-1] / w1[0]\n    return k\n").body[0]
+    div = next(x for x in ast.walk(sample) if isinstance(x, ast.BinOp) and isinstance(x.op, ast.Div))
+    sp, ss = _block_defs(sample), _stmt_map(sample)
+    ctl = _value_leaves(sample, div.left, ss[id(div)], sp) == {"weights"} and _value_leaves(sample, div.right, ss[id(div)], sp) == {"weights"}
+    chk.floor(rule, "positive control: the quotient of two weights in the built-in sample is recognised", int(ctl), 1)
+    chk.floor(rule, f"true divisions in {module}", n, 5)
+    return n
+
+
+# ---------------------------------------------------------------------------------------------------------
+# NODE-EACH: nothing in an evaluation over a sequence of nodes is taken from ONE particular node
+def node_each(r: R, chk, quals: List[str], param: str = "nodes", rule="NODE-EACH", floor: int = 2):
+    """C(u_k) for a sequence (u_k) is one value per node, each computed from its own node: `nodes[0]` (a typed zero, a dtype, a
+    shape taken from the first node) makes the values of all other nodes depend on the first one — a float first node turns the
+    exact values at the Fraction nodes into floats — and raises IndexError for the empty sequence, which has the answer ()."""
+    n = 0
+    for q in quals:
+        fi = r.prog.func(q)
+        if param not in fi.params:
+            continue
+        n += 1
+        hits = [s for s in ast.walk(fi.node) if isinstance(s, ast.Subscript) and isinstance(s.value, ast.Name) and s.value.id == param and isinstance(s.ctx, ast.Load)
+                and (isinstance(s.slice, ast.Constant) or (isinstance(s.slice, ast.UnaryOp) and isinstance(s.slice.operand, ast.Constant)))]
+        ok = not hits
+        chk.ob(rule, f"{q}: no element of `{param}` at a fixed position is read", ok, loc=f"{fi.module}.py:{hits[0].lineno if hits else fi.node.lineno}",
+               detail="" if ok else f"{q}: `{seg(hits[0], 30)}` reads ONE particular node of the caller's sequence: what is made from it (a typed zero, a dtype) is used for the values of all nodes — with a float first and Fraction later nodes the exact values come back as floats — and the empty sequence raises IndexError instead of giving ()",
+               func=q, construct=f"{param} read at a fixed position")
+    sample = ast.parse("def f(nodes):\n    z = 0 * nodes[0]\n    return [z for _ in nodes]\n").body[0]
+    ctl = any(isinstance(s, ast.Subscript) and isinstance(s.value, ast.Name) and s.value.id == "nodes" and isinstance(s.slice, ast.Constant) for s in ast.walk(sample))
+    chk.floor(rule, "positive control: `nodes[0]` in the built-in sample is recognised", int(ctl), 1)
+    chk.floor(rule, f"evaluation functions with a `{param}` parameter examined", n, floor)
+    return n
+
+
+# ---------------------------------------------------------------------------------------------------------
+# LSTSQ-ROWS: the matrix of the normal equations is the caller's matrix, every equation with its own weight 1
+def lstsq_rows(r: R, chk, qual: str = "heavy.Linalg.lstsq", rule="LSTSQ-ROWS"):
+    """(A^T A)^-1 A^T minimises sum_k r_k^2.  Multiplying the k-th equation by c_k minimises sum_k c_k^2 r_k^2 — the same solution
+    only when the data are consistent (then every r_k is 0 anyway).  What enters `solve(X.T @ X, X.T)` is the parameter through
+    conversions only (np.array, tuple, transpose); no product / quotient is applied to it on the way."""
+    fi = r.prog.func(qual)
+    fn = fi.node
+    pos = _block_defs(fn)
+    sm = _stmt_map(fn)
+    n = 0
+    for c in ast.walk(fn):
+        if not (isinstance(c, ast.Call) and seg(c.func).endswith("solve") and len(c.args) == 2):
+            continue
+        e = resolve_reaching(fn, c.args[0], sm.get(id(c)), params=tuple(fi.params), pos=pos)
+        if not any(isinstance(x, ast.BinOp) and isinstance(x.op, ast.MatMult) for x in ast.walk(e)) and not any(isinstance(x, ast.Call) and seg(x.func) in ("np.dot", "np.matmul") for x in ast.walk(e)):
+            continue  # the square case: solve(A, I)
+        n += 1
+        arith = [x for x in ast.walk(e) if isinstance(x, ast.BinOp) and isinstance(x.op, (ast.Mult, ast.Div, ast.Add, ast.Sub)) and any(isinstance(y, ast.Name) for y in ast.walk(x))]
+        unresolved = any(isinstance(x, ast.Name) and x.id == "__unresolved__" for x in ast.walk(e))
+        ok = not arith and not unresolved
+        chk.ob(rule, f"{qual}: the normal equations of `{seg(c, 40)}` are built from the caller's matrix as it is", ok, loc=f"{fi.module}.py:{c.lineno}",
+               detail="" if ok else f"{qual}: the matrix of `{seg(c, 50)}` is `{seg(e, 90)}`: the caller's equations are {'rescaled (`' + seg(arith[0], 40) + '`)' if arith else 'rebuilt in a way that is not followed'} before the normal equations are formed — a weighted least squares: sum_k c_k^2 r_k^2 is minimised instead of sum_k r_k^2, so for data outside the space the residual of fit_points is no longer orthogonal to the basis (consistent data are still reproduced, which is all the tests look at)",
+               func=qual, construct="equations rescaled before the normal equations")
+    chk.floor(rule, f"normal equations in {qual}", n, 1)
+    return n
